@@ -1,3 +1,3 @@
 """Global MANIFEST data (per-property texts live in cfg/Cxx.py)."""
-HOOK_COMMITS = ["2cd5fda", "3632d2a", "f47f3bd", "64e6418", "637a9e9", "ab8fa8e", "5420fb6", "e384fe0", "ff74804", "469e16e", "03360ef"]
+HOOK_COMMITS = ["2cd5fda", "3632d2a", "f47f3bd", "64e6418", "637a9e9", "ab8fa8e", "5420fb6", "e384fe0", "ff74804", "469e16e", "03360ef", "066eb92"]
 NOT_APPLICABLE_REASON = {}
